@@ -108,6 +108,19 @@ CLAIMED["C15"] = {
     "design_ref": "5 C15",
 }
 
+CLAIMED["C05"] = {
+    "technique": "Lean 4 proofs: floor-based index = half-open-bin Spec (uniqueness, bracketing edges), counts/sum/mean/conservation, permutation invariance of the accumulation, schedule independence for every non-racy discipline in an interleaving model, lost-update witness for the racy one; index rule and accumulation discipline detected from plot/utils.py; correspondence incl. edge points and thread sweeps",
+    "text": "index_spec_unique, C05_cell_spec, C05_index_floor_eq_spec, C05_counts / C05_sum / C05_sum_mean / C05_conservation, accum_perm / C05_perm, C05_sched (any discipline but sharedRMW, every schedule and chunking = serial fold = Spec), sharedRMW_loses_update and C05_trunc_witness / C05_trunc_below_range (negations for the code as it was) are proved. Tie: hist2d and histogram2d(plot=False) on points on every bin edge, within one bin width outside either limit, NaN/inf, one-bin collisions, lengths 0..1e5 (1e6 thorough), resolutions 1..64, explicit/auto/degenerate limits, log axes, 0-3 layers with sum/mean, exact lane bit-identical; thread lane 1/2/4/16 threads.",
+    "note": "partial: the real numba scheduler is sampled, C05_sched is about the interleaving model of atomic loads/stores; IEEE rounding excluded by the exact lane / bounded by 1e-9 with near ties skipped",
+    "design_ref": "5 C05",
+}
+CLAIMED["C18"] = {
+    "technique": "Lean 4 algebra over Q: perpendicular and cross products are orthogonal, u x (n x u) = |u|^2 n (right-handedness), basis constructions for every accepted form, kernel-decided table of the 54 accepted axis strings, top/side from the angular momentum; correspondence of get_direction / VectorBasis incl. extreme scales",
+    "text": "perp_orth, cross_orth, u_cross_v, C18_normalize_unit, C18_basis_normal / C18_basis_nu / C18_basis_given / C18_roll / C18_vector, C18_letters (decide +kernel over all accepted strings), C18_top (n parallel to L), C18_side (L in the image plane) are proved in exact arithmetic. Tie: all accepted strings in any case, normal Vectors axis-aligned / z=0 / x+y=0 / random, scaled by 10^+-k up to 300 and with one tiny component, any unit, VectorBasis objects plain and rolled, top/side on particle clouds; norms and dots to 1e-12, orientation and handedness checked on the real results.",
+    "note": "partial: overflow/underflow of doubles is outside the theorems (exact arithmetic) and is covered by the correspondence only",
+    "design_ref": "5 C18",
+}
+
 NOT_YET = {
 }
 
